@@ -93,6 +93,44 @@ pub fn euler_checks(model: &Arc<ResidualModel>, s: &RState, lam: f64) -> Vec<Che
         for i in 0..nc {
             out.push(Check { name: "mu_res intensive", resid: mu2[i] - mu[i], scale: mu[i].abs() + s.t * 1e-3 });
         }
+        // further intensive properties built from the derivatives
+        if nc > 1 {
+            let g1 = st.thermodynamic_factor();
+            let g2 = st2.thermodynamic_factor();
+            for i in 0..nc - 1 {
+                for j in 0..nc - 1 {
+                    out.push(Check { name: "thermodynamic factor intensive", resid: g2[[i, j]] - g1[[i, j]], scale: g1[[i, j]].abs() + 1.0 });
+                }
+            }
+        }
+        let v1 = st.partial_molar_volume().to_reduced();
+        let v2 = st2.partial_molar_volume().to_reduced();
+        let lt1 = st.dln_phi_dt().to_reduced();
+        let lt2 = st2.dln_phi_dt().to_reduced();
+        let lp1 = st.dln_phi_dp().to_reduced();
+        let lp2 = st2.dln_phi_dp().to_reduced();
+        let ln1 = st.dln_phi_dnj().to_reduced();
+        let ln2 = st2.dln_phi_dnj().to_reduced();
+        for i in 0..nc {
+            out.push(Check { name: "partial molar volume intensive", resid: v2[i] - v1[i], scale: v1[i].abs() + s.v / n.sum() * 1e-3 });
+            out.push(Check { name: "dlnphi/dT intensive", resid: lt2[i] - lt1[i], scale: lt1[i].abs() + 1.0 / s.t });
+            out.push(Check { name: "dlnphi/dp intensive", resid: lp2[i] - lp1[i], scale: lp1[i].abs() + (v1[i] / s.t).abs() });
+            for j in 0..nc {
+                out.push(Check { name: "dlnphi/dN degree -1", resid: ln2[[i, j]] * lam - ln1[[i, j]], scale: ln1[[i, j]].abs() + 1.0 / n.sum() });
+            }
+        }
+        let k1 = st.isothermal_compressibility().to_reduced();
+        let k2 = st2.isothermal_compressibility().to_reduced();
+        out.push(Check { name: "isothermal compressibility intensive", resid: k2 - k1, scale: k1.abs() });
+        let cv1 = st.residual_molar_isochoric_heat_capacity().to_reduced();
+        let cv2 = st2.residual_molar_isochoric_heat_capacity().to_reduced();
+        out.push(Check { name: "c_v residual intensive", resid: cv2 - cv1, scale: cv1.abs() + 1e-3 });
+        let cp1 = st.residual_molar_isobaric_heat_capacity().to_reduced();
+        let cp2 = st2.residual_molar_isobaric_heat_capacity().to_reduced();
+        out.push(Check { name: "c_p residual intensive", resid: cp2 - cp1, scale: cp1.abs() + 1.0 });
+        let sf1 = st.structure_factor();
+        let sf2 = st2.structure_factor();
+        out.push(Check { name: "structure factor intensive", resid: sf2 - sf1, scale: sf1.abs() });
         let dpdt1 = st.dp_dt(Contributions::Total).to_reduced();
         let dpdt2 = st2.dp_dt(Contributions::Total).to_reduced();
         out.push(Check { name: "dp/dT intensive", resid: dpdt2 - dpdt1, scale: dpdt1.abs() });
@@ -169,7 +207,15 @@ Eval vm_compute in ("EULER", "P", let d := tan_outs P_prog P_n [0%nat] in map (f
             let base = if i == 0 { sa.clone() } else { set.tv.iter().find(|(k, _, _)| *k == i).unwrap().1.clone() };
             let sc = RState { t: base.t, v: base.v * lam_t, n: base.n.iter().map(|x| x * lam_t).collect() };
             let pc = trace::trace_residual(c.model.as_ref(), &sc);
-            let cs = feos_verif::prog::compare(&tr.raw, &pc);
+            let mut cs = feos_verif::prog::compare(&tr.raw, &pc);
+            // re-injected f64 values (converged monomer fractions) differ in the last bits because N/V is rounded
+            // differently after scaling: only a relative difference above 1e-9 counts as scale dependence
+            if cs.same_shape {
+                cs.leaks.retain(|&i| {
+                    let (x, y) = (tr.raw.consts[i], pc.consts[i]);
+                    !((x - y).abs() <= 1e-9 * x.abs().max(y.abs()))
+                });
+            }
             progs_json.push(json!({
                 "name": p, "ninstr": tr.prog.instrs.len(), "nconsts": tr.prog.consts.len(),
                 "outs": tr.prog.outs, "n_re": tr.prog.re_events.len(), "n_cmp": tr.prog.cmp_events.len(),
